@@ -462,6 +462,54 @@ func TestC12(t *testing.T) {
 			})
 		}
 	})
+	// endpoints that never reached the relay (it is down from the start) and are shut down while
+	// they keep retrying: Accept and Dial return, nothing crashes
+	for i, after := range []time.Duration{300 * time.Millisecond, 2500 * time.Millisecond, 5 * time.Second}[:pick(2, 3)] {
+		relay := NewFakeRelay()
+		relay.SetDown(true)
+		name := fmt.Sprintf("never-reached-relay:shutdown-after=%v", after)
+		st, err := NewStack(relay, 700+i)
+		if err != nil {
+			// a client that cannot be created without the relay is a visible failure, not a hang
+			r.Case(name, false, "mailbox/never-reached")
+			continue
+		}
+		ret := make(chan string, 2)
+		go func() {
+			c, _ := st.Srv.Accept()
+			if c != nil {
+				c.Close()
+			}
+			ret <- "Accept"
+		}()
+		go func() {
+			c, _ := st.Cli.Dial(st.Ctx, "")
+			if c != nil {
+				c.Close()
+			}
+			ret <- "Dial"
+		}()
+		time.Sleep(after)
+		down := make(chan struct{})
+		go func() { st.Shutdown(); close(down) }()
+		hung := ""
+		select {
+		case <-down:
+		case <-time.After(20 * time.Second):
+			hung = "Server.Close / context cancellation"
+		}
+		for k := 0; k < 2 && hung == ""; k++ {
+			select {
+			case <-ret:
+			case <-time.After(20 * time.Second):
+				hung = "Accept or Dial"
+			}
+		}
+		if hung != "" {
+			r.Violate("C12/mailbox-close-does-not-return", fmt.Sprintf("relay unreachable from the start, shutdown after %v: %s had not returned after 20 s", after, hung), name)
+		}
+		r.Case(name, true, "mailbox/never-reached")
+	}
 	// a handshake that waits for a peer that never shows up, abandoned by cancelling its context at
 	// several instants: the handshake returns and nothing - in particular not its reader
 	// goroutine, which sees the cancellation as a transport error - stays behind
